@@ -947,7 +947,7 @@ func (a *Agent) gatherCandidatesSrflx(ctx context.Context, urls []*stun.URI, net
 			if closeErr := c.close(); closeErr != nil {
 				a.log.Warnf("Failed to close candidate: %v", closeErr)
 			}
-			a.log.Warnf("Failed to append to localCandidates and run onCandidateHdlr: %v", err)
+			closeConnAndLog(conn, a.log, "Failed to append to localCandidates and run onCandidateHdlr: %v", err)
 		}
 	}
 
